@@ -82,6 +82,29 @@ def jobs(tier, seed):
             for simp in (True, False):
                 for order in orders:
                     out.append({"kind": "B-curated", **sh, "refine": refine, "simplify": simp, "tactics": order})
+    # family D: chains for the recursive branch of tactic 4 (several eliminated variables,
+    # each context row links two of them), both signs of every coefficient
+    n_chain = 60 if tier == "quick" else 600
+    for _ in range(n_chain):
+        sg = lambda: rng.choice([-2, -1, 1, 2])  # noqa: E731
+        depth = rng.choice([2, 2, 3])
+        ev = ["x", "y", "u"][:depth]
+        term = {"x": sg(), "z": sg()}
+        cx = []
+        for i in range(depth - 1):
+            row = {ev[i]: sg(), ev[i + 1]: sg()}
+            if rng.random() < 0.5:
+                row["w"] = sg()
+            cx.append(row)
+        last = {ev[-1]: sg()}
+        if rng.random() < 0.7:
+            last["w"] = sg()
+        cx.append(last)
+        if rng.random() < 0.4:
+            cx.append({ev[-1]: sg(), "w": sg()})
+        rng.shuffle(cx)
+        extra_terms = [B.rterm(rng, ev + ["z", "w"], [-1, 0, 0, 1, 2])] if rng.random() < 0.3 else []
+        out.append({"kind": "D-chain", "terms": [term] + extra_terms, "ctx": cx, "elim": ev, "refine": True, "simplify": rng.random() < 0.5, "tactics": rng.choice([[4], [4], [1, 4], [4, 5]])})
     # family C: seeded random shapes
     n_rand = 150 if tier == "quick" else 2500
     alphabet = BOUNDS[tier]["alphabet"]
